@@ -139,6 +139,7 @@ def _off(rng, lo=-11 * 3600, hi=12 * 3600):
 
 
 def gen_zone(rng):
+    from dsim import depth as DP
     mode = rng.choice(["plain", "plain", "abbr_change", "dst_dst",
                        "negative_dst", "base_change", "big_jump", "random",
                        "random", "no_transitions", "one_type"])
@@ -151,7 +152,7 @@ def gen_zone(rng):
     def typ(off, isdst, abbr):
         tt = (off, bool(isdst), abbr)
         if tt not in types:
-            if len(types) >= 8:
+            if len(types) >= DP.pick(8, 14):
                 return rng.randrange(len(types))
             types.append(tt)
         return types.index(tt)
@@ -162,7 +163,11 @@ def gen_zone(rng):
 
     std = _off(rng, -11 * 3600, 12 * 3600)
     sav = rng.choice([3600, 3600, 1800, 7200])
-    n = rng.choice([1, 2, 3, 6, 10, 20, 40])
+    n = rng.choice(DP.pick([1, 2, 3, 6, 10, 20, 40], [6, 20, 40, 80, 120]))
+    if n > 40:
+        # keep the last transition inside the 32-bit range of the v1 block
+        t = rng.choice([-1500000000, -600000000]) + \
+            rng.randrange(0, 86400 * 300)
     if mode == "no_transitions":
         typ(std, False, "STD")
         if rng.random() < 0.5:
@@ -337,7 +342,8 @@ def generate(cls, rng):
         zone = dict(kind="system", pick=rng.getrandbits(30))
     else:
         zone = gen_zone(rng)
-    sc = dict(zone=zone, ops=gen_loads(rng, rng.randrange(2, 9)),
+    from dsim import depth as DP
+    sc = dict(zone=zone, ops=gen_loads(rng, rng.randrange(2, DP.pick(9, 20))),
               probe_seed=rng.getrandbits(30),
               archive_order=rng.choice(["links_last", "links_first",
                                         "sorted", "reversed"]))
